@@ -40,7 +40,7 @@ REQUIRED = ['recursiveloader:ManifestRecursiveLoader.save_manifests',
             'failing_updates', 'cli_histories', 'cli_multi_histories',
             'histories_in_other_tz', 'histories_with_profile', 'adopt_cases',
             'createfault_fired', 'dangling_cases', 'signfail_cases', 'forcestale_cases',
-            'locale_cases']
+            'locale_cases', 'adopt_ignored_file_cases']
 ASSUMPTIONS = ['writes by child processes are invisible to the audit hook; the '
                'snapshot comparison covers them',
                '"Manifest file" = a file named Manifest[.gz|.bz2|.lzma|.xz] or referenced '
@@ -638,6 +638,10 @@ def build_adopt_tree(root, case):
         top.append(mtext.file_entry('DATA', 'cat/pkg/' + mname, ptext, ['SHA256']))
     elif case['listed'] == 'misc':
         top.append(mtext.file_entry('MISC', 'cat/pkg/' + mname, ptext, ['SHA256']))
+    elif case['listed'] == 'ignore':
+        # the file merely has a Manifest name: an exact IGNORE entry takes it (and
+        # nothing else) out of the tree
+        top.append({'tag': 'IGNORE', 'path': 'cat/pkg/' + mname})
     with open(os.path.join(root, 'Manifest'), 'w') as f:
         f.write(mtext.render(top))
     return mname
@@ -654,6 +658,8 @@ def exec_adopt(ctx, case):
         mname = build_adopt_tree(root, case)
         mans0 = manifest_state(root)
         keep0 = lines_of(mans0, 'DIST') + lines_of(mans0, 'IGNORE')
+        with open(os.path.join(root, 'cat', 'pkg', mname), 'rb') as f:
+            bytes0 = f.read()
         ctx.case(sig=('adopt', case['listed'], case['profile'], case['api'],
                       case['stale'], mname), case=case, klass='adopt')
         argv = ['gemato', 'update', '-p', case['profile'], '--hashes', 'SHA256', root]
@@ -676,6 +682,21 @@ def exec_adopt(ctx, case):
             ctx.count('adopt_update_raised:' + type(exc).__name__)
             rc = exc
         ctx.count('adopt_cases')
+        if case['listed'] == 'ignore':
+            ctx.count('adopt_ignored_file_cases')
+            try:
+                with open(os.path.join(root, 'cat', 'pkg', mname), 'rb') as f:
+                    bytes1 = f.read()
+            except OSError:
+                bytes1 = None
+            if bytes1 != bytes0:
+                ctx.violation('ignored-file-touched:' + ('deleted' if bytes1 is None
+                                                        else 'rewritten'),
+                    'update -p %s (rc %r): the file cat/pkg/%s, which an exact IGNORE '
+                    'entry excludes from the tree, was %s' % (
+                        case['profile'], rc, mname,
+                        'deleted' if bytes1 is None else 'rewritten'), case)
+                return
         mans1 = manifest_state(root)
         keep1 = lines_of(mans1, 'DIST') + lines_of(mans1, 'IGNORE')
         lost = keep0 - keep1
@@ -1045,7 +1066,7 @@ def run_forcestale(u, ctx):
 
 def run_adopt(u, ctx):
     n = 0
-    for listed in ('manifest', 'data', 'misc', 'none'):
+    for listed in ('manifest', 'data', 'misc', 'none', 'ignore'):
         for profile in ('ebuild', 'old-ebuild'):
             for api in ('cli', 'lib'):
                 for stale in (False, True):
